@@ -29,3 +29,6 @@ def rules(ctx):
     S.c06_r2_handover(ctx)
     S.refcount_rules(ctx)
     S.loop_completeness_rules(ctx)
+    # a dirty page dropped by a failed write-back never reaches the next commit's flush
+    S.c08_r8_flush_keeps_page(ctx)
+    S.c08_r2_check_then_latch(ctx)
